@@ -61,3 +61,15 @@ package ip
 //@   loop 0 row noaddr: [call net.InterfaceByIndex(route.LinkIndex) as (i, e) ; call GetInterfaceIP(i) as (a, e2)] when route.Dst == nil && route.Src == nil && route.Priority < pre(priority) && e == nil && e2 != nil && ret2 == e2 -> exit
 //@   loop 0 row take:  [call net.InterfaceByIndex(route.LinkIndex) as (i, e) ; call GetInterfaceIP(i) as (a, e2)]
 //@                        when route.Dst == nil && route.Src == nil && route.Priority < pre(priority) && e == nil && e2 == nil && priority == route.Priority && iface == i && ifaceIP == a -> continue
+
+// default gateway of an interface (C11): among the default routes (no Dst, no Src) through THIS link, the gateway of
+// the first one with the strictly lowest metric; other routes change nothing
+//@ func GetDefaultGatewayIP
+//@   props C11
+//@   observe netlink.RouteList
+//@   entry row nolist: [call netlink.RouteList(_, _) as (rs, e)] when e != nil && ret1 == e -> exit
+//@   entry row list:   [call netlink.RouteList(_, _) as (rs, e)] when e == nil -> loop 0
+//@   loop 0 invariant clean: err == nil
+//@   loop 0 row done:  [] when ret0 == gatewayIP && ret1 == nil -> exit
+//@   loop 0 row skip:  [] when !(route.Dst == nil && route.Src == nil && route.LinkIndex == iface.Index && route.Priority < pre(priority)) && priority == pre(priority) && gatewayIP == pre(gatewayIP) -> continue
+//@   loop 0 row take:  [] when route.Dst == nil && route.Src == nil && route.LinkIndex == iface.Index && route.Priority < pre(priority) && priority == route.Priority && gatewayIP == route.Gw -> continue
